@@ -90,6 +90,9 @@ def _run_task(modname, task):
         with common.quiet():
             r = mod.run_task(task)
         out = r.pack()
+        for lst in out["viol"].values():
+            for v in lst:
+                v["task"] = common.jsonable(task)
     out["wall"] = time.time() - t0
     out["backend"] = be
     return out
@@ -198,8 +201,19 @@ def run_check(check_id, tier, repo, jobs, seed):
             a, erra = _replay_once(check_id, path, repo)
             b, errb = _replay_once(check_id, path, repo)
             if a is None or b is None or a != b or not a.get("violations"):
-                nondeterministic.append((path, a, b, erra or errb))
-                continue
+                # the single case does not reproduce from a fresh process: the failure may
+                # depend on the calls made before it (state carried over inside the library).
+                # Fall back to replaying the whole task shard, which is deterministic.
+                rec["replay_mode"] = "task"
+                with open(path, "w") as f:
+                    json.dump(rec, f, indent=1, sort_keys=True)
+                a2, erra2 = _replay_once(check_id, path, repo)
+                b2, errb2 = _replay_once(check_id, path, repo)
+                if a2 is None or b2 is None or a2 != b2 or not a2.get("violations"):
+                    nondeterministic.append((path, a, b, erra or errb or erra2 or errb2))
+                    continue
+                print("NOTE: violation below depends on the call history; its replay file "
+                      "re-runs the whole task shard")
         print("VIOLATION property=%s replay=%s" % (check_id, path))
         print("  check=%s backend=%s signature=%s cases=%d"
               % (rec["check"], rec["backend"], sig, merged.viol_count[sig]))
@@ -280,7 +294,16 @@ def run_replay(check_id, path, repo, as_json):
         print("pyx-model unavailable: %s" % backend.pyx_error())
         return 2
     backend.use("py" if be == "both" else be)
-    if rec.get("case", {}).get("harness_exception"):
+    if rec.get("replay_mode") == "task":
+        task = rec["task"]
+        with common.quiet():
+            rr = mod.run_task(task)
+        r = Result()
+        for sig, lst in rr.viol.items():
+            if sig == rec["signature"]:
+                # keep only what identifies the failure, not the (history dependent) details
+                r.viol[sig] = [dict(lst[0], expected="see task replay", observed="see task replay")]
+    elif rec.get("case", {}).get("harness_exception"):
         # re-run the recorded state through the check's own driver
         task = dict(rec["case"]["task"], shard=0, nshards=1, backend=be)
         ck = rec["case"]["clock"]
